@@ -47,8 +47,9 @@ func TestVerifJoinCodeCollision(t *testing.T) {
 		rand.Reader = sr
 		st := NewStore(0)
 		create := func() Session {
-			if limited {
-				s, ok := st.CreateLimited(10)
+			// (looked up through an interface: a tree whose store has no CreateLimited must still build)
+			if cl, has := any(st).(interface{ CreateLimited(int) (Session, bool) }); limited && has {
+				s, ok := cl.CreateLimited(10)
 				if !ok {
 					t.Fatalf("CreateLimited refused")
 				}
